@@ -811,9 +811,73 @@ def check_landscape_plots_semantic(project: Project, rep):
             rep.discharged("PL-LAND", fi, plots[0]["node"],
                            f"{tag}: evaluated on a 3-depth landscape of symbols — one line per requested depth, in order, drawn from "
                            f"that depth's own data and labelled with its depth")
+        if kind == "approx" and status == "ok":
+            status = _thinned_run(project, rep, fi, q, cls, APQ, EXQ)
         out[name] = status
     LAND_SEMANTIC.update(out)
     return out
+
+
+def _thinned_run(project, rep, fi, q, cls, APQ, EXQ):
+    """PL-LAND, grid plots asked for FEWER points than the landscape has samples (num_steps=3 on 7 samples, then 2 on 7): whatever
+    the function does with the request (today: nothing), every drawn point whose ordinate is a sampled value v[d][j] must sit at
+    that sample's abscissa start + j·(stop − start)/(n − 1).  Only that definite mismatch is refuted; a function that draws
+    other ordinates (interpolation) gets no verdict from this run."""
+    import random
+    from ..core.values import NoneV, ObjV, Sc, Seq
+    a = fi.node.args
+    if "num_steps" not in [x.arg for x in a.posonlyargs + a.args + a.kwonlyargs]:
+        return "ok"
+    n_ = 7
+    for asked in (3, 2):
+        data = [[sym.Sym(f"w{d}{i}") for i in range(n_)] for d in range(2)]
+        full = {"values": Seq([Seq([Sc(x) for x in dd], "list") for dd in data], "list"), "max_depth": Sc(sym.Num(1)),
+                "hom_deg": Sc(sym.ZERO), "start": Sc(sym.Sym("start")), "stop": Sc(sym.Sym("stop")), "num_steps": Sc(sym.Num(n_))}
+
+        def stub(I_, bound, n2_):
+            return NoneV()
+        I = Interp(project, Config(flags={"stub_func": {EXQ + ".compute_landscape": stub, APQ + ".compute_landscape": stub}}))
+        tag = f"{q.rsplit('.', 1)[1]}(num_steps={asked}) on a landscape of {n_} samples"
+        try:
+            I.run(q, {"landscape": ObjV(cls, full), "ax": ObjV(None, {}, tag="axes"), "num_steps": Sc(sym.Num(asked))})
+        except AnalysisError as ex:
+            rep.note(f"PL-LAND {tag}: could not be evaluated ({ex}); no verdict from the thinned run"[:200])
+            return "ok"
+        um = [u for u in I.unmodelled if not str(u["tag"]).startswith("prim:builtins.print")]
+        plots = [ev for ev in I.log if ev["kind"] == "draw" and ev.get("method") == "plot"]
+        if um or I.lossy or len(plots) != 2:
+            rep.note(f"PL-LAND {tag}: the run was not exact; no verdict from the thinned run")
+            return "ok"
+        pt = symeval.Point(random.Random(5))
+        try:
+            st, sp = symeval.ev(sym.Sym("start"), pt), symeval.ev(sym.Sym("stop"), pt)
+            for ev, d in zip(plots, range(2)):
+                pos = ev.get("pos") or []
+                xs, ys = (_elements(pos[0]), _elements(pos[1])) if len(pos) >= 2 else (None, None)
+                if xs is None or ys is None or len(xs) != len(ys):
+                    rep.note(f"PL-LAND {tag}: line data not read; no verdict from the thinned run")
+                    return "ok"
+                vals = [symeval.ev(x, pt) for x in data[d]]
+                for xe, ye in zip(xs, ys):
+                    x, y = symeval.ev(xe, pt), symeval.ev(ye, pt)
+                    js = [j for j, v in enumerate(vals) if abs(v - y) < 1e-9]
+                    if len(js) != 1:
+                        rep.note(f"PL-LAND {tag}: an ordinate is not a sampled value; no verdict from the thinned run")
+                        return "ok"
+                    gx = st + js[0] * (sp - st) / (n_ - 1)
+                    if abs(gx - x) > 1e-9 * max(1.0, abs(gx)):
+                        rep.refuted("PL-LAND", fi, ev["node"],
+                                    f"{tag}: the point that shows sample {js[0]} of depth {d} (abscissa start + {js[0]}/{n_ - 1}·(stop − start)) "
+                                    f"is drawn at start + {(x - st) / (sp - st):.4g}·(stop − start): the thinned ordinates and the "
+                                    "rebuilt abscissae are out of step, the line is stretched along the axis",
+                                    construct=f"{q}: abscissae of a thinned grid line",
+                                    failing_input=f"PersLandscapeApprox with {n_} samples plotted with num_steps={asked}")
+                        return "refuted"
+        except symeval.NotEvaluable:
+            rep.note(f"PL-LAND {tag}: not evaluable; no verdict from the thinned run")
+            return "ok"
+        rep.discharged("PL-LAND", fi, plots[0]["node"], f"{tag}: every drawn point is a sample at its own grid abscissa")
+    return "ok"
 
 
 def k_th(i):
